@@ -739,6 +739,18 @@ fn oracles(
             if !done.insert(name.clone()) {
                 continue;
             }
+            // a blocklisted typedef of a scalar type: the user's definition is an alias of the same scalar (an
+            // initialised constant of that type is emitted as `pub const V: T = 37;`, which a blob would not accept)
+            const SCALARS: &[(&str, &str)] = &[("int", "::std::os::raw::c_int"), ("char", "::std::os::raw::c_char"), ("unsigned long", "::std::os::raw::c_ulong"),
+                ("double", "f64"), ("short", "::std::os::raw::c_short"), ("unsigned char", "::std::os::raw::c_uchar"), ("float", "f32"), ("long long", "::std::os::raw::c_longlong")];
+            let scalar = if k == "Alias" {
+                (0..p.decls.len()).find(|&i| p.decls[i].kind == DKind::Typedef && p.path(i) == it.name)
+                    .and_then(|i| SCALARS.iter().find(|(c, _)| p.decls[i].text == format!("typedef {c} {};", p.decls[i].base)).map(|(_, r)| *r))
+            } else { None };
+            if let Some(r) = scalar {
+                raw.push_str(&format!("pub type {name} = {r};\n"));
+                continue;
+            }
             match it.layout {
                 Some((s, a)) if a.is_power_of_two() => raw.push_str(&format!("#[repr(C, align({a}))] pub struct {name} {{ _b: [u8; {s}] }}\n")),
                 _ => ok = false,
